@@ -451,6 +451,119 @@ theorem h5_open (gunz : Bytes → Bytes) (rest : Bytes) :
   rw [h5_not_gz]
   simp
 
+/-! ## dtypes without an EM type code -/
+
+/-- **whatever dtype the density is held in, the EM type code written describes the payload**: the reader
+decodes the code to exactly the dtype the writer put on disk, so item size and interpretation agree
+(with `decode_encode_em`: the voxels come back).  `dtype` ranges over all names, listed or not
+(unsigned, half precision, 64-bit integers, bool, non-native byte order …). -/
+theorem em_write_code_describes_payload (dtype : String) :
+    emDtypeOf (emWriteCode dtype) = some (emWriteDtype dtype) ∧
+    emItemsize (emWriteCode dtype) = dtypeSize (emWriteDtype dtype) ∧ (dtypeSize (emWriteDtype dtype)).isSome := by
+  unfold emWriteCode emWriteDtype
+  by_cases h : emSaveTable.any (·.1 == dtype) = true
+  · rw [if_pos h]
+    simp only [emSaveTable, List.any_cons, List.any_nil, Bool.or_false, Bool.or_eq_true, beq_iff_eq] at h
+    rcases h with h | h | h | h | h | h | h <;> subst h <;> decide
+  · rw [if_neg h]; decide
+
+/-- a dtype with a type code is written as it is; every other one as float32 -/
+theorem emWriteDtype_spec (dtype : String) :
+    (dtype ∈ emSaveTable.map (·.1) → emWriteDtype dtype = dtype) ∧
+    (dtype ∉ emSaveTable.map (·.1) → emWriteDtype dtype = "float32") := by
+  unfold emWriteDtype
+  constructor
+  · intro h
+    rw [if_pos]
+    simp only [List.mem_map] at h
+    obtain ⟨p, hp, rfl⟩ := h
+    exact List.any_eq_true.mpr ⟨p, hp, by simp⟩
+  · intro h
+    rw [if_neg]
+    intro hc
+    obtain ⟨p, hp, he⟩ := List.any_eq_true.mp hc
+    exact h (List.mem_map.mpr ⟨p, hp, by simpa using he⟩)
+
+/-- before `fix: store dtypes without an EM type code as float32`: a uint16 volume went to disk as
+2-byte items under type code 5 (float32), which the reader cannot even decode -/
+theorem em_unlisted_dtype_current_defect :
+    emCodeOf (emWriteDtypeOld "uint16") = 5 ∧
+    emDecode (emEncode (emCodeOf (emWriteDtypeOld "uint16")) 2 [1, 1, 2] 1000 [7, 9]) = none ∧
+    emDecode (emEncode (emWriteCode "uint16") 4 [1, 1, 2] 1000 [7, 9]) = some (⟨5, [1, 1, 2], 1000, 512⟩, [7, 9]) := by
+  set_option maxRecDepth 20000 in decide
+
+/-! ## MRC files of any data mode and any axis order -/
+
+/-- the MRC sub-box read is the slice for every item size (modes int8 / int16 / uint16 / float16 / float32 …) -/
+theorem mrc_mode_subset_eq_slice (hdr ext : Bytes) (hh : hdr.length = 1024) (b nz ny nx : Nat) (data : List Nat)
+    (z0 z1 y0 y1 x0 x1 : Nat)
+    (hlen : data.length = nz * ny * nx) (hv : ∀ v ∈ data, v < 256 ^ b)
+    (hz : z0 ≤ z1 ∧ z1 ≤ nz) (hy : y0 ≤ y1 ∧ y1 ≤ ny) (hx : x0 ≤ x1 ∧ x1 ≤ nx) :
+    ∃ r, loadSubset (hdr ++ ext ++ payload b data) (1024 + ext.length) [nz, ny, nx] b
+          [((z0 : Int), (z1 : Int)), ((y0 : Int), (y1 : Int)), ((x0 : Int), (x1 : Int))] = .ok r ∧
+      r.shape = [z1 - z0, y1 - y0, x1 - x0] ∧
+      ∀ i j k, i < z1 - z0 → j < y1 - y0 → k < x1 - x0 →
+        r.getD [i, j, k] 0 = (⟨[nz, ny, nx], data.toArray⟩ : Arr Nat).getD [z0 + i, y0 + j, x0 + k] 0 := by
+  have h := loadSubset_eq_slice (hdr ++ ext) [] b nz ny nx data z0 z1 y0 y1 x0 x1 hlen hv hz hy hx
+  rw [List.append_nil, List.length_append, hh] at h
+  exact h
+
+/-- with the standard axis order the file-order box is the completed request -/
+theorem mrcCrsBox_standard (box : Box) (nz ny nx : Nat) :
+    mrcCrsBox [0, 1, 2] box [nz, ny, nx] = mrcPadBox box [nz, ny, nx] := by
+  simp [mrcCrsBox, mrcPadBox, invPerm, List.range_succ, List.idxOf, List.findIdx_cons]
+
+/-- **a sub-box of an MRC file with any `mapc/mapr/maps` is the corresponding slice of the volume the
+full read returns** (`np.transpose(data, crs)`): for each of the six axis orders, every header size, item
+size, payload and every in-bounds box.  The box is written as `permute crs fb` for a file-order box `fb`
+— as `fb` ranges over the in-bounds boxes of the file this is every in-bounds box of the returned
+volume — and `permute crs [i, j, k]` is every index of the result. -/
+theorem mrc_crs_subset_eq_slice (pre post : Bytes) (b n0 n1 n2 : Nat) (data : List Nat) (crs : List Nat)
+    (hcrs : crs ∈ [[0, 1, 2], [0, 2, 1], [1, 0, 2], [1, 2, 0], [2, 0, 1], [2, 1, 0]])
+    (z0 z1 y0 y1 x0 x1 : Nat)
+    (hlen : data.length = n0 * n1 * n2) (hv : ∀ v ∈ data, v < 256 ^ b)
+    (hz : z0 ≤ z1 ∧ z1 ≤ n0) (hy : y0 ≤ y1 ∧ y1 ≤ n1) (hx : x0 ≤ x1 ∧ x1 ≤ n2) :
+    ∃ r, mrcLoadSubsetCrs (pre ++ payload b data ++ post) pre.length [n0, n1, n2] b crs
+          (permute crs [((z0 : Int), (z1 : Int)), ((y0 : Int), (y1 : Int)), ((x0 : Int), (x1 : Int))] (0, 0)) = .ok r ∧
+      r.shape = permute crs [z1 - z0, y1 - y0, x1 - x0] 0 ∧
+      ∀ i j k, i < z1 - z0 → j < y1 - y0 → k < x1 - x0 →
+        r.getD (permute crs [i, j, k] 0) 0
+          = (transposeArr ⟨[n0, n1, n2], data.toArray⟩ crs).getD (permute crs [z0 + i, y0 + j, x0 + k] 0) 0 := by
+  obtain ⟨r0, hr0, hs0, hg0⟩ := loadSubset_eq_slice pre post b n0 n1 n2 data z0 z1 y0 y1 x0 x1 hlen hv hz hy hx
+  simp only [List.mem_cons, List.not_mem_nil, or_false] at hcrs
+  refine ⟨transposeArr r0 crs, ?_, ?_, ?_⟩
+  · unfold mrcLoadSubsetCrs
+    rcases hcrs with rfl | rfl | rfl | rfl | rfl | rfl <;>
+    · simp only [mrcCrsBox, permute, invPerm, List.map, List.range_succ, List.range_zero, List.nil_append, List.cons_append,
+        List.length_cons, List.length_nil, List.getD_cons_zero, List.getD_cons_succ, List.idxOf, List.findIdx_cons,
+        Nat.reduceBEq, Nat.reduceAdd, cond_true, cond_false, Nat.zero_add] at hr0 ⊢
+      rw [hr0]
+  · rcases hcrs with rfl | rfl | rfl | rfl | rfl | rfl <;> simp [transposeArr, Arr.ofFn, permute, hs0]
+  · intro i j k hi hj hk
+    unfold transposeArr
+    rcases hcrs with rfl | rfl | rfl | rfl | rfl | rfl <;>
+    · rw [Arr.getD_ofFn _ _ _ _ (by simp [permute, hs0, inShape, hi, hj, hk])]
+      rw [Arr.getD_ofFn _ _ _ _ (by simp [permute, inShape]; omega)]
+      simpa [permute, invPerm, List.range_succ, List.idxOf, List.findIdx_cons] using hg0 i j k hi hj hk
+
+/-- before `fix: sub-box of an MRC file with permuted MAPC/MAPR/MAPS …` file axis `j` was given the
+caller's entry `crs[j]` instead of `argsort(crs)[j]`: for the cyclic order (1, 2, 0) a request of extents
+(1, 1, 2) on a (3, 4, 2)-shaped volume came back with extents (2, 1, 1); for the orders that are their own
+inverse both coincide -/
+theorem crs_cyclic_current_defect :
+    (boxShape (mrcCrsBoxOld [1, 2, 0] [(0, 1), (1, 2), (0, 2)] [2, 3, 4])) = [1, 2, 1] ∧
+    (boxShape (mrcCrsBox [1, 2, 0] [(0, 1), (1, 2), (0, 2)] [2, 3, 4])) = [2, 1, 1] ∧
+    permute [1, 2, 0] [2, 1, 1] 0 = [1, 1, 2] ∧ permute [1, 2, 0] [1, 2, 1] 0 = [2, 1, 1] ∧
+    (∀ box : Box, ∀ crs ∈ [[0, 1, 2], [0, 2, 1], [1, 0, 2], [2, 1, 0]], box.length = 3 →
+      mrcCrsBoxOld crs box [2, 3, 4] = mrcCrsBox crs box [2, 3, 4]) := by
+  refine ⟨by decide, by decide, by decide, by decide, ?_⟩
+  intro box crs hcrs hl
+  match box, hl with
+  | [a, b, c], _ =>
+    simp only [List.mem_cons, List.not_mem_nil, or_false] at hcrs
+    rcases hcrs with rfl | rfl | rfl | rfl <;>
+      simp [mrcCrsBoxOld, mrcCrsBox, invPerm, List.range_succ, List.idxOf, List.findIdx_cons]
+
 /-! ## non-vacuity -/
 
 example : validateSlices [(0, 2), (1, 3), (1, 4)] [2, 3, 4] = none ∧
@@ -469,5 +582,15 @@ example : mrcRead (mrcFields [2, 3, 4] [3 / 2, -9 / 4, 3] [3 / 2, 2, 1 / 2])
   mrc_roundtrip_fields 2 3 4 _ _ _ _ _ _ (by decide) (by decide) (by decide) (Or.inl (by decide +kernel))
 example : saveFmt "a.em.gz".toList = .em ∧ saveFmt "a.h5".toList = .h5 ∧ saveFmt "a.map".toList = .mrc ∧
     finalName "a.mrc".toList true = "a.mrc.gz".toList ∧ saveFmt (finalName "stem".toList true) = .em := by decide
+
+example : emWriteDtype "int16" = "int16" ∧ emWriteCode "int16" = 2 ∧ emWriteDtype "uint16" = "float32" ∧
+    emWriteCode "float32-be" = 5 ∧ emWriteCode "float64" = 6 := by decide
+example : invPerm [1, 2, 0] = [2, 0, 1] ∧ permute [1, 2, 0] [10, 20, 30] 0 = [20, 30, 10] ∧
+    mrcCrsBox [1, 2, 0] [(0, 1), (1, 2), (0, 2)] [2, 3, 4] = [(0, 2), (0, 1), (1, 2)] ∧
+    mrcCrsBox [1, 2, 0] [(1, 2)] [2, 3, 4] = [(0, 2), (1, 2), (0, 4)] := by decide
+example : (transposeArr ⟨[1, 2, 3], #[0, 1, 2, 3, 4, 5]⟩ [1, 2, 0]).shape = [2, 3, 1] ∧
+    (transposeArr ⟨[1, 2, 3], #[0, 1, 2, 3, 4, 5]⟩ [2, 0, 1]).toList = [0, 3, 1, 4, 2, 5] := by decide
+example : (match mrcLoadSubsetCrs ([9, 9] ++ payload 1 [0, 1, 2, 3, 4, 5]) 2 [1, 2, 3] 1 [2, 0, 1] [(1, 3), (0, 1), (1, 2)] with
+    | .ok r => (r.shape, r.toList) | .err _ => ([], [])) = ([2, 1, 1], [4, 5]) := by decide
 
 end Pm.C08
